@@ -245,8 +245,22 @@ func retsmParseSteps(s string) ([]retsmStep, bool) {
 	return out, true
 }
 
+// retsmIdxName: the name of index i.  Indexes 1, 3, 4 carry names that are also words of the data layout (see retIdxWords
+// in c14_ret.go): removeSegmetas turns segment keys back into directories with utils.GetSegBaseDirFromFilename.
+func retsmIdxName(i int) string {
+	switch i {
+	case 1:
+		return "final"
+	case 3:
+		return "final.final"
+	case 4:
+		return "rotated"
+	}
+	return fmt.Sprintf("smx%d", i)
+}
+
 func retsmSegkey(ing string, nidx, key int) (segkey, basedir string) {
-	basedir = fmt.Sprintf("%sfinal/smx%d/st/%d/", ing, key%nidx, key)
+	basedir = fmt.Sprintf("%sfinal/%s/st/%d/", ing, retsmIdxName(key%nidx), key)
 	return basedir + fmt.Sprint(key), basedir
 }
 
@@ -254,7 +268,7 @@ func retsmSegkey(ing string, nidx, key int) (segkey, basedir string) {
 func retsmMeta(ing string, nidx, key, uid, extra int) *structs.SegMeta {
 	segkey, basedir := retsmSegkey(ing, nidx, key)
 	return &structs.SegMeta{SegmentKey: segkey, EarliestEpochMS: 1700000000000 + uint64(uid), LatestEpochMS: 1700000100000 + uint64(uid),
-		SegbaseDir: basedir + strings.Repeat("p", extra), VirtualTableName: fmt.Sprintf("smx%d", key%nidx), RecordCount: uid + 1,
+		SegbaseDir: basedir + strings.Repeat("p", extra), VirtualTableName: retsmIdxName(key % nidx), RecordCount: uid + 1,
 		BytesReceivedCount: 1000 + uint64(uid), OnDiskBytes: 77, NumBlocks: 1}
 }
 
@@ -463,7 +477,7 @@ func execRetSm(line string) Result {
 			} else {
 				idx := ""
 				if st.index >= 0 {
-					idx = fmt.Sprintf("smx%d", st.index)
+					idx = retsmIdxName(st.index)
 				}
 				ret = writer.VerifRemoveSegmetas(keys, idx)
 			}
